@@ -1565,6 +1565,39 @@ fn c01gen(tr: &mut Option<std::fs::File>) {
             }
         }
     }
+    // 3e. attachment lookups nested in a GPOS context whose sequence-lookup records are NOT in ascending order (or repeat):
+    //     the nested lookup then runs with the cursor moved BACK, on texts that start with a mark or have marks without
+    //     any base in front (the attachment target search must not keep an index from the later position)
+    {
+        let an = |x: i16, y: i16| Some(Anchor { x, y });
+        let nested: Vec<(&str, PosSubtable)> = vec![
+            ("markbase", PosSubtable::MarkBase { mark_coverage: Coverage::Glyphs(vec![2]), base_coverage: Coverage::Glyphs(vec![1]), class_count: 1, marks: vec![(0, Anchor { x: 10, y: 20 })], bases: vec![vec![an(300, 400)]] }),
+            ("marklig", PosSubtable::MarkLig { mark_coverage: Coverage::Glyphs(vec![2]), lig_coverage: Coverage::Glyphs(vec![3]), class_count: 1, marks: vec![(0, Anchor { x: 10, y: 20 })], ligatures: vec![vec![vec![an(100, 400)], vec![an(500, 400)]]] }),
+            ("markmark", PosSubtable::MarkMark { mark1_coverage: Coverage::Glyphs(vec![2]), mark2_coverage: Coverage::Glyphs(vec![2]), class_count: 1, marks: vec![(0, Anchor { x: 10, y: 20 })], mark2s: vec![vec![an(10, 300)]] }),
+            ("cursive", PosSubtable::Cursive { coverage: Coverage::Glyphs(vec![1, 2, 3]), entry_exit: vec![(an(0, 10), an(500, 30)), (an(0, 5), an(100, 15)), (an(0, 0), an(600, 50))] }),
+        ];
+        let orders: [&[u16]; 4] = [&[2, 0], &[1, 0], &[0, 0], &[2, 1, 0, 2]];
+        let shapes: [[u16; 3]; 3] = [[2, 1, 2], [1, 2, 2], [2, 2, 1]];
+        for (lname, sub) in &nested {
+            for (oi, order) in orders.iter().enumerate() {
+                for (si, shape) in shapes.iter().enumerate() {
+                    let mut f = FontSpec::basic(4);
+                    f.gdef = Some(Gdef { glyph_classes: vec![(1, 1), (2, 3), (3, 2)], mark_attach_classes: vec![], mark_glyph_sets: vec![] });
+                    // each position also accepts the ligature glyph where it accepts the base
+                    let covs: Vec<Coverage> = shape.iter().map(|g| if *g == 1 { Coverage::Glyphs(vec![1, 3]) } else { Coverage::Glyphs(vec![2]) }).collect();
+                    let ctx = PosSubtable::Context3 { coverages: covs, lookups: order.iter().map(|i| SeqLookup { sequence_index: *i, lookup_index: 1 }).collect() };
+                    f.gpos = Some(Layout::single_feature(*b"mark", vec![Lookup::one(ctx), Lookup::one(sub.clone())]));
+                    for code in 0..27u32 {
+                        let gl = [code % 3, (code / 3) % 3, code / 9];
+                        let text: Vec<(u32, u32)> = gl.iter().enumerate().map(|(i, g)| (pua(*g), i as u32)).collect();
+                        for dir in [Direction::LeftToRight, Direction::RightToLeft] {
+                            run_case(&format!("gpos-context-records-out-of-order-{}-{}-{}", lname, oi, si), &f, Req { text: text.clone(), flags: 3, dir: Some(dir), ..Default::default() }, &mut cnt, tr);
+                        }
+                    }
+                }
+            }
+        }
+    }
     // 4a. nested ligatures: 15 x a -> L1, then 18 x L1 -> L2 (270 components: beyond every 8-bit counter);
     //     very wide advances (the serializer sums them)
     {
